@@ -52,6 +52,11 @@ pub(crate) fn repair_index<S: Open>(
     let be = repo.dbe();
     let mut checker = PackChecker::new(repo)?;
 
+    // Index files which are replaced. They are only removed after all replacements (the reduced
+    // index files and the index rebuilt from the pack headers) have been written, so that no
+    // pack ever drops out of the index if this command is interrupted.
+    let mut obsolete_index_files = Vec::new();
+
     let p = repo.progress_counter("reading index...");
     for index in be.stream_all::<IndexFile>(&p)? {
         let (index_id, index) = index?;
@@ -62,7 +67,7 @@ pub(crate) fn repair_index<S: Open>(
                 if !new_index.packs.is_empty() || !new_index.packs_to_delete.is_empty() {
                     _ = be.save_file(&new_index)?;
                 }
-                be.remove(FileType::Index, &index_id, true)?;
+                obsolete_index_files.push(index_id);
             }
             (false, _) => {} // nothing to do
         }
@@ -108,6 +113,12 @@ pub(crate) fn repair_index<S: Open>(
     }
     indexer.write().unwrap().finalize()?;
     p.finish();
+
+    if !dry_run {
+        for index_id in obsolete_index_files {
+            be.remove(FileType::Index, &index_id, true)?;
+        }
+    }
 
     Ok(())
 }
